@@ -8,7 +8,10 @@
 (* and a sequence of declarations [n |-> name, k |-> "fn"|"const"|"struct",*)
 (* pub |-> BOOLEAN, body |-> BOOLEAN] (body: a function with a body, or a  *)
 (* constant / structure with its definition).  Names are unique in the     *)
-(* whole program (name clashes are C11's duplicates).                      *)
+(* whole program (name clashes are C11's duplicates).  `ipos` is the       *)
+(* number of own declarations written BEFORE the import lines: the         *)
+(* documentation does not say where imports have to stand, so the position *)
+(* is a dimension of Gen and no part of R.                                 *)
 (*                                                                         *)
 (*   Gen  every program up to MaxMods modules x MaxDecls declarations x    *)
 (*        pub/private flags x import relation (self- and mutual imports    *)
@@ -29,7 +32,8 @@
 EXTENDS Naturals, Sequences, FiniteSets, TLC, SequencesExt, FiniteSetsExt
 
 CONSTANTS MaxMods, MaxDecls,
-          Dirs          \* set of directory sequences modules may live in, e.g. {<<>>}
+          Dirs,         \* set of directory sequences modules may live in, e.g. {<<>>}
+          ImportPositions \* TRUE: the import lines of a module stand at every position among its declarations
 
 VARIABLES mods,         \* the program as parsed: sequence of [dir, name, imports, decls]
           cur,          \* the current declaration sequence of every module (expand works in place)
@@ -92,8 +96,9 @@ Init == /\ mods = <<>> /\ cur = <<>> /\ todo = {} /\ phase = "modules"
 
 AddModule == /\ phase = "modules" /\ Len(mods) < MaxMods
              /\ \E flags \in FlagSeqs, d \in Dirs :
+                \E ip \in (IF ImportPositions THEN 0..Len(flags) ELSE {0}) :
                    mods' = Append(mods, [dir |-> d, name |-> FileName(Len(mods) + 1), imports |-> <<>>,
-                                        decls |-> DeclsOf(Len(mods) + 1, flags)])
+                                        decls |-> DeclsOf(Len(mods) + 1, flags), ipos |-> ip])
              /\ UNCHANGED <<cur, todo, phase>>
 \* every module imports a subset of the modules (by exact path), in ascending order
 ChooseImports == /\ phase = "modules" /\ Len(mods) >= 1
